@@ -29,6 +29,7 @@ mod proj;
 mod vary;
 mod rect;
 mod stats;
+mod meshb;
 
 use std::io::{BufRead, BufWriter, Write};
 
@@ -89,6 +90,7 @@ fn subsystem(name: &str) -> Option<(GenFn, ExecFn)> {
         "vary" => (vary::gen, vary::exec),
         "rect" => (rect::gen, rect::exec),
         "stats" => (stats::gen, stats::exec),
+        "meshb" => (meshb::gen, meshb::exec),
         _ => return None,
     })
 }
